@@ -4,6 +4,7 @@
 EXTENDS ResultAlg, Json, IOUtils, Randomization
 
 Gen == IOEnv.VT_GEN
+Tier == IOEnv.VT_TIER
 NMax == atoi(IOEnv.VT_N)
 Hop(a, rtt, dest) == [s |-> a.s, b |-> a.b, rtt |-> rtt, dest |-> dest]
 T4 == Addr("198.51.100.9", <<198, 51, 100, 9>>)
@@ -83,7 +84,10 @@ C08All(u) ==
               <<RunOf([i \in 1..n |-> Hop(as[i], i, FALSE)] \o <<Hop(T4, 9, TRUE)>>)>>, <<1>>, TRUE, FALSE, dns, nm, TRUE, 7500000, FALSE, <<>>)
       : n \in {1, 3, 5}, all \in BOOLEAN }
 
-Cases == CASE Gen = "C16" -> C16All(0) [] Gen = "C17" -> C17All(0) [] Gen = "C18" -> C18All(0) [] Gen = "C18dup" -> C18Dup(0) [] Gen = "C08" -> C08All(0) [] OTHER -> {}
+\* documents finished concurrently (the HTTP server shares one Traceroute between requests): identifiers stay pairwise distinct
+C16Stress(u) == { [id |-> "C16/concurrent/" \o ToString(g) \o "x" \o ToString(n), label |-> "ids/concurrent/" \o ToString(g), kind |-> "docstress",
+                   extra |-> [g |-> g, n |-> n, runs |-> 3]] : g \in {2, 8}, n \in {IF Tier = "quick" THEN 400 ELSE 4000} }
+Cases == CASE Gen = "C16stress" -> C16Stress(0) [] Gen = "C16" -> C16All(0) [] Gen = "C17" -> C17All(0) [] Gen = "C18" -> C18All(0) [] Gen = "C18dup" -> C18Dup(0) [] Gen = "C08" -> C08All(0) [] OTHER -> {}
 ASSUME LET c == Cases
            pk == IF NMax > 0 /\ Cardinality(c) > NMax THEN RandomSubset(NMax, c) ELSE c
        IN /\ ndJsonSerialize(IOEnv.VT_OUT, SetToSeq(pk))
